@@ -19,13 +19,39 @@ IGNORE_DIRS = ["", "proj", "proj/sub", "proj/sub/deep"]          # relative to t
 PATTERNS = ["c.sql", "b.sql", "deep/", "*.sql", "sub/deep/c.sql", "/a.sql"]
 
 
-def build(root, ignores):
+def build(root, ignores, kinds=None):
+    """kinds[d] = 'ignorefile' (.sqlfluffignore) or 'config' (.sqlfluff with ignore_paths)."""
     for f in FILES:
         p = os.path.join(root, f)
         os.makedirs(os.path.dirname(p), exist_ok=True)
         open(p, "w").write("select 1\n")
     for d, pat in ignores.items():
-        open(os.path.join(root, d, ".sqlfluffignore"), "w").write(pat + "\n")
+        if (kinds or {}).get(d, "ignorefile") == "config":
+            open(os.path.join(root, d, ".sqlfluff"), "w").write(f"[sqlfluff]\nignore_paths = {pat}\n")
+        else:
+            open(os.path.join(root, d, ".sqlfluffignore"), "w").write(pat + "\n")
+
+
+def fresh_process_state():
+    """Every explored path starts from the state of a new process: all function caches of the discovery and config-file
+    modules are emptied, so that the only history a path has is the one it spells out."""
+    import sqlfluff.core.config.file as cf
+    import sqlfluff.core.config.loader as cl
+    for mod in (disc, cf, cl):
+        for v in vars(mod).values():
+            if callable(getattr(v, "cache_clear", None)):
+                v.cache_clear()
+
+
+def other_tree_history(ignores, kinds):
+    """An earlier discovery in the same process, in ANOTHER project with the same layout whose ignore files sit at the same
+    relative places but hold different patterns, run from that project's own working directory with the same spellings."""
+    root2 = os.path.realpath(tempfile.mkdtemp(prefix="c25o_"))
+    try:
+        build(root2, {d: ("*.sql" if pat != "*.sql" else "c.sql") for d, pat in ignores.items()}, kinds)
+        run_spellings(root2)
+    finally:
+        shutil.rmtree(root2, ignore_errors=True)
 
 
 def reference(root, ignores, target="proj"):
@@ -71,13 +97,20 @@ def make(max_ignores):
         disc.linter_logger = NullLogger()
 
         def harness(c):
-            ignores = {}
+            fresh_process_state()
+            ignores, kinds = {}, {}
             for d in IGNORE_DIRS:
                 if len(ignores) < max_ignores and bool(fresh_bool(c, f"ignore_in_{d or 'cwd'}")):
                     ignores[d] = choose(c, f"pattern_{d or 'cwd'}", PATTERNS)
+                    kinds[d] = choose(c, f"kind_{d or 'cwd'}", ["ignorefile", "config"])
+            if ignores and bool(fresh_bool(c, "earlier_discovery_in_another_project")):
+                other_tree_history(ignores, kinds)   # REAL, same process
+                c.witness("after_another_project")
+            if "config" in kinds.values():
+                c.witness("ignore_paths_in_config")
             root = os.path.realpath(tempfile.mkdtemp(prefix="c25_"))
             try:
-                build(root, ignores)
+                build(root, ignores, kinds)
                 res = run_spellings(root)  # REAL paths_from_path x 3 spellings
                 exp = reference(root, ignores)
             finally:
@@ -93,20 +126,25 @@ def make(max_ignores):
 
 def replay(max_ignores):
     def rp(cex):
-        ignores = {}
+        fresh_process_state()
+        ignores, kinds = {}, {}
         for d in IGNORE_DIRS:
             if len(ignores) < max_ignores and cex.get(f"ignore_in_{d or 'cwd'}"):
                 ignores[d] = PATTERNS[int(cex.get(f"pattern_{d or 'cwd'}", 0))]
+                kinds[d] = ["ignorefile", "config"][int(cex.get(f"kind_{d or 'cwd'}", 0))]
+        hist = bool(ignores and cex.get("earlier_discovery_in_another_project"))
+        if hist:
+            other_tree_history(ignores, kinds)
         root = os.path.realpath(tempfile.mkdtemp(prefix="c25_"))
         try:
-            build(root, ignores)
+            build(root, ignores, kinds)
             res = run_spellings(root)
             exp = reference(root, ignores)
         finally:
             shutil.rmtree(root, ignore_errors=True)
         strip = lambda xs: [os.path.relpath(x, root) for x in xs]  # noqa: E731
         if not (res["relative"] == res["absolute"] == res["dot"] == exp):
-            return (f".sqlfluffignore files {ignores}: given as 'proj' -> {strip(res['relative'])}; absolute -> {strip(res['absolute'])}; "
+            return (f"ignore patterns {ignores} (kinds {kinds}){' after a discovery in another project of the same layout' if hist else ''}: given as 'proj' -> {strip(res['relative'])}; absolute -> {strip(res['absolute'])}; "
                     f"'.' -> {strip(res['dot'])}; expected {strip(exp)}")
         return None
     return rp
@@ -117,10 +155,12 @@ def units(tier, seed):
         name=f"c25.discovery[<= {k} ignore files]",
         functions=["sqlfluff.core.linter.discovery.paths_from_path", "_iter_files_in_path", "_process_exact_path", "_check_ignore_specs",
                    "_iter_config_files", "_load_ignorefile", "sqlfluff.core.helpers.file.iter_intermediate_paths"],
-        bounds={"tree": FILES, "ignore files": f"<= {k} among {IGNORE_DIRS}", "patterns": PATTERNS, "spellings": "relative, absolute, '.'"},
+        bounds={"tree": FILES, "ignore files": f"<= {k} among {IGNORE_DIRS}", "kind of each": ".sqlfluffignore / ignore_paths in .sqlfluff",
+                "patterns": PATTERNS, "spellings": "relative, absolute, '.'",
+                "history": "none / the same spellings run first in another project with the same layout and other patterns"},
         make=make(k), replay=replay(k),
         stubs=["none: a real temporary tree is built for every explored path; which ignore files exist and what they contain are "
                "solver-forked choices"],
-        outside=["ignore_paths in .sqlfluff / pyproject.toml", "symlinks", "exact-file paths"],
-        witnesses_required=["nested_ignore_file", "something_ignored"], sharded=True, timeout_s=600 if tier == "quick" else 1800)
+        outside=["pyproject.toml", "symlinks", "exact-file paths"],
+        witnesses_required=["nested_ignore_file", "something_ignored", "ignore_paths_in_config", "after_another_project"], sharded=True, timeout_s=600 if tier == "quick" else 1800)
         for k in ([2] if tier == "quick" else [2, 3])]
